@@ -117,6 +117,11 @@ func emAlgorithm(obj emCore, meta ConstVector, tmp []EmTmp, epsilon float64, max
     if likelihood_new, err := obj.Step(meta, tmp, p); err != nil {
       return err
     } else {
+      if math.IsNaN(likelihood_new) {
+        // NaN never satisfies the convergence test below, i.e. the loop would
+        // not terminate if maxSteps is -1
+        return fmt.Errorf("log-likelihood is NaN")
+      }
       if tmp[0].gamma != nil {
         if err := obj.Emissions(tmp[0].gamma, p); err != nil {
           return err
